@@ -23,7 +23,7 @@
 (***************************************************************************)
 EXTENDS SchemaDecl, Export
 \* see SchemaMC: tags before payloads in TLC's field order
-FieldOrder == [fam |-> 0, kind |-> 0, k |-> 0, rep |-> 0, ok |-> 0, d |-> 0, some |-> 0, op |-> 0, id |-> 0, v |-> 0]
+FieldOrder == [fam |-> 0, kind |-> 0, k |-> 0, rep |-> 0, t |-> 0, ok |-> 0, d |-> 0, some |-> 0, op |-> 0, id |-> 0, name |-> 0, v |-> 0]
 
 Trace == ndJsonDeserialize(IOEnv.VERIF_TRACE)
 VARIABLE l
